@@ -7,7 +7,7 @@ from hypothesis import strategies as st
 from vlib import gens
 from vlib.core import Prop, Sub, Violation, calling, check
 from vlib.oracles import _linprog, lp_margin
-from vlib.systems import Sys, matrix_system, target_rows
+from vlib.systems import proportional_variant, Sys, matrix_system, target_rows
 
 
 def under_system():
@@ -16,7 +16,7 @@ def under_system():
 
 @st.composite
 def under_case(draw):
-    sysd = draw(under_system())
+    sysd, _prop = draw(proportional_variant(draw(under_system())))
     sv = Sys(sysd)
     rows = draw(target_rows(sysd, ["interior", "interior", "interior", "near_in"], nrows=(1, 2), margin=(0.05, 0.45)))
     kind = draw(st.sampled_from(["none", "l2", "min", "max", "var", "number", "vector"]))
@@ -28,7 +28,7 @@ def under_case(draw):
         opt = (sv.lb + np.asarray(draw(gens.array((sv.n,), -0.2, 1.2, styles=("raw",)))) * (sv.ub - sv.lb)).tolist()
     W = draw(st.one_of(st.none(), gens.array((sv.m,), 0.5, 2.0, styles=("raw",))))
     return dict(system=sysd, rows=rows, kind=kind, opt=opt, l2_eps=draw(gens.log_uniform(1e-6, 1e-3)), W=W,
-                entry=draw(st.sampled_from(["function", "estimator"])))
+                entry=draw(st.sampled_from(["function", "estimator"])), proportional=_prop)
 
 
 def goal_fn(kind, opt):
@@ -114,7 +114,7 @@ def body_under(case):
     model = sv.predict(X)
     mag = np.abs(X) @ np.abs(sv.Ap).T + np.abs(sv.basep)
     check(np.all(np.abs(Bp - model) <= 1e-9 * mag + 1e-300), "under:prediction", "B_pred is not the model's capture of X")
-    labs = sv.labels() + [f"opt:{kind}", f"entry:{case['entry']}", "W" if W is not None else "noW"]
+    labs = sv.labels() + [f"opt:{kind}", f"entry:{case['entry']}", "W" if W is not None else "noW"] + (["proportional-sources"] if case.get("proportional") else [])
     goal = goal_fn(kind, opt)
     for i, b in enumerate(B):
         res = float(np.linalg.norm(w * (model[i] - b)))
